@@ -11,6 +11,15 @@ fn word(rng: &mut Rng) -> Vec<u8> {
         1 => rng.range(8, 20),
         _ => rng.range(1, 6),
     };
+    if rng.chance(1, 5) {
+        // multi-byte characters: the limits count bytes, not characters
+        let mut w = String::new();
+        for _ in 0..len.min(12) {
+            let t: &str = *rng.pick(&["é", "日", "ü", "a", "𝄞", "ß"]);
+            w.push_str(t);
+        }
+        return w.into_bytes();
+    }
     (0..len).map(|_| b'a' + rng.below(26) as u8).collect()
 }
 
